@@ -581,6 +581,64 @@ fn record_words(b: i64) -> [[u8; 8]; 7] {
     w
 }
 
+/// stopstart: a daemon publishes records A (FreeRunning) and B (Synchronized) while a client holds the segment open, then STOPS CLEANLY (its
+/// writer is dropped: the orderly ThreadAbort path, or an unwinding panic); the attached client and a new client read; then the daemon
+/// starts again on the same file and publishes C.  Reports the generation at each stage and what the clients obtained.
+pub fn cmd_stopstart(_a: &[&str]) -> String {
+    let path = tmp_path("ss");
+    let _ = std::fs::remove_file(&path);
+    let rec = |b: i64, st: ClockStatus| ClockErrorBound::new(libc::timespec { tv_sec: b, tv_nsec: 1 }, libc::timespec { tv_sec: b + 1000, tv_nsec: 0 }, b, 1000, 0, st);
+    let fields = |c: &ClockErrorBound| -> String {
+        let b: [u8; 56] = unsafe { std::mem::transmute_copy(c) };
+        let i = |o: usize| i64::from_ne_bytes(b[o..o + 8].try_into().unwrap());
+        format!("{}:{}:{}:{}:{}:{}", i(0), i(8), i(16), i(24), i(32), i32::from_ne_bytes(b[48..52].try_into().unwrap()))
+    };
+    let res = std::panic::catch_unwind(std::panic::AssertUnwindSafe(|| {
+        let gen_of = |p: &str| -> i64 { std::fs::read(p).ok().filter(|b| b.len() >= 16).map(|b| u16::from_ne_bytes([b[14], b[15]]) as i64).unwrap_or(-1) };
+        let ver_of = |p: &str| -> i64 { std::fs::read(p).ok().filter(|b| b.len() >= 16).map(|b| u16::from_ne_bytes([b[12], b[13]]) as i64).unwrap_or(-1) };
+        let mut w = ShmWriter::new(std::path::Path::new(&path)).expect("ShmWriter::new");
+        w.write(&rec(100, ClockStatus::FreeRunning));
+        let cpath = CString::new(path.clone()).unwrap();
+        let mut old_reader = ShmReader::new(&cpath).expect("ShmReader::new");
+        let _ = old_reader.snapshot();
+        w.write(&rec(200, ClockStatus::Synchronized));
+        let gen_before_stop = gen_of(&path);
+        let rec_before: Vec<u8> = std::fs::read(&path).unwrap_or_default()[16..].to_vec();
+        drop(w);
+        let gen_after_stop = gen_of(&path);
+        let ver_after_stop = ver_of(&path);
+        let rec_after: Vec<u8> = std::fs::read(&path).unwrap_or_default().get(16..).map(|x| x.to_vec()).unwrap_or_default();
+        let old = match old_reader.snapshot() {
+            Ok(c) => fields(c),
+            Err(e) => format!("err_{:?}", e).replace(' ', "_"),
+        };
+        let newr = match ShmReader::new(&cpath) {
+            Ok(mut r) => match r.snapshot() {
+                Ok(c) => fields(c),
+                Err(e) => format!("err_{:?}", e).replace(' ', "_"),
+            },
+            Err(e) => format!("open_{}", crate::shm_err_pub(&e)).replace(' ', "_"),
+        };
+        let mut w2 = ShmWriter::new(std::path::Path::new(&path)).expect("second ShmWriter::new");
+        let gen_after_restart = gen_of(&path);
+        w2.write(&rec(300, ClockStatus::Synchronized));
+        let gen_after_write = gen_of(&path);
+        let old2 = match old_reader.snapshot() {
+            Ok(c) => fields(c),
+            Err(e) => format!("err_{:?}", e).replace(' ', "_"),
+        };
+        format!(
+            "gen_before_stop={} gen_after_stop={} version_after_stop={} record_changed_by_stop={} attached_client_after_stop={} new_client_after_stop={} gen_after_restart={} gen_after_first_write={} attached_client_after_restart={}",
+            gen_before_stop, gen_after_stop, ver_after_stop, rec_before != rec_after, old, newr, gen_after_restart, gen_after_write, old2
+        )
+    }));
+    let _ = std::fs::remove_file(&path);
+    match res {
+        Ok(s) => format!("ok {}", s),
+        Err(p) => format!("panic {}", crate::panic_msg(&p).replace(' ', "_")),
+    }
+}
+
 /// recreate <hex bytes>: ShmWriter::new over a file with the given (unusable) content; prints the file afterwards
 pub fn cmd_recreate(a: &[&str]) -> String {
     let path = tmp_path("rc");
